@@ -44,8 +44,15 @@ func (_ dimensionSetter) UpdateProperties(po tabular.PropertyOwner) error {
 		height:    cell.Height(),
 	}
 
-	linesWidths := make([]decoration.WidthString, dims.height)
-	for i, l := range cell.Lines() {
+	lines := cell.Lines()
+	// A declared height may be smaller than the text really is; every line
+	// is still shown, so the array holds whichever is larger.
+	nLines := dims.height
+	if len(lines) > nLines {
+		nLines = len(lines)
+	}
+	linesWidths := make([]decoration.WidthString, nLines)
+	for i, l := range lines {
 		linesWidths[i] = decoration.WidthString{
 			S: l,
 			W: length.StringCells(l),
